@@ -96,28 +96,30 @@ def predicates(ctx, cfg, env, td, B):
     elif name == "op":
         if need("locs", "depot", "prize", "max_length"):
             p.check("shape", shape_is(td["locs"], B, n, 2) and shape_is(td["prize"], B, n) and td["max_length"].shape[0] == B, "shapes")
-            p.check("coords_in_bounds", in_range(td["locs"], g.min_loc, g.max_loc), "coordinates outside bounds")
+            p.check("coords_in_bounds", in_range(td["locs"], g.min_loc, g.max_loc) and in_range(td["depot"], g.min_loc, g.max_loc), "coordinates outside bounds")
             p.check("prize_range", in_range(td["prize"], 0.01, 1.0), "prize outside (0, 1]")
             if cfg.get("prize_type", "dist") == "const":
                 p.check("prize_const", bool((td["prize"] == 1).all()), "const prizes are not 1")
     elif name in ("pctsp", "spctsp"):
         if need("locs", "depot", "penalty", "deterministic_prize", "stochastic_prize"):
             p.check("shape", shape_is(td["locs"], B, n, 2) and shape_is(td["penalty"], B, n) and shape_is(td["deterministic_prize"], B, n), "shapes")
-            p.check("coords_in_bounds", in_range(td["locs"], g.min_loc, g.max_loc), "coordinates outside bounds")
+            p.check("coords_in_bounds", in_range(td["locs"], g.min_loc, g.max_loc) and in_range(td["depot"], g.min_loc, g.max_loc), "coordinates outside bounds")
             p.check("nonneg", bool((td["penalty"] >= 0).all()) and bool((td["deterministic_prize"] >= 0).all()) and bool((td["stochastic_prize"] >= 0).all()), "negative prize/penalty")
             p.check("stochastic_le_2x", bool((td["stochastic_prize"] <= 2 * td["deterministic_prize"] + 1e-6).all()), "stochastic prize > 2 x expected prize")
     elif name == "pdp":
         if need("locs", "depot"):
             p.check("shape", shape_is(td["locs"], B, n, 2) and shape_is(td["depot"], B, 2), "shapes")
             p.check("even_pairs", n % 2 == 0, "odd number of pickup/delivery nodes")
-            p.check("coords_in_bounds", in_range(td["locs"], g.min_loc, g.max_loc), "coordinates outside bounds")
+            p.check("coords_in_bounds", in_range(td["locs"], g.min_loc, g.max_loc) and in_range(td["depot"], g.min_loc, g.max_loc), "coordinates outside bounds")
     elif name == "mtsp":
         if need("locs", "num_agents"):
             p.check("shape", shape_is(td["locs"], B, n, 2) and shape_is(td["num_agents"], B), "shapes")
             p.check("agents_in_range", in_range(td["num_agents"], g.min_num_agents, g.max_num_agents), "num_agents outside range")
+            p.check("coords_in_bounds", in_range(td["locs"], g.min_loc, g.max_loc), "coordinates outside bounds")
     elif name == "svrp":
         if need("locs", "depot", "techs", "skills"):
             p.check("shape", shape_is(td["locs"], B, n, 2) and td["techs"].shape[0] == B and shape_is(td["skills"], B, n, 1), "shapes")
+            p.check("coords_in_bounds", in_range(td["locs"], g.min_loc, g.max_loc) and in_range(td["depot"], g.min_loc, g.max_loc), "coordinates outside bounds")
             p.check("techs_sorted", bool((td["techs"][:, 1:] >= td["techs"][:, :-1]).all()), "technicians not sorted by skill")
             p.check("techs_in_range", in_range(td["techs"], g.min_skill, g.max_skill), "technician skill outside range")
             p.check("every_customer_servable", bool((td["skills"].squeeze(-1) <= td["techs"].max(dim=1).values).all()), "a customer needs more skill than the best technician has")
@@ -266,9 +268,14 @@ def make_with(cfg, gp):
     import rl4co.envs as E
 
     name, n = cfg["env"], cfg["n"]
-    cls = dict(tsp=E.TSPEnv, cvrp=E.CVRPEnv, op=E.OPEnv, pctsp=E.PCTSPEnv, sdvrp=E.SDVRPEnv, cvrptw=E.CVRPTWEnv, pdp=E.PDPEnv, atsp=E.ATSPEnv, mtvrp=E.MTVRPEnv)[name]
-    from vlib.oracles import routing as R
+    cls = dict(tsp=E.TSPEnv, cvrp=E.CVRPEnv, op=E.OPEnv, pctsp=E.PCTSPEnv, sdvrp=E.SDVRPEnv, cvrptw=E.CVRPTWEnv, pdp=E.PDPEnv, atsp=E.ATSPEnv, mtvrp=E.MTVRPEnv,
+               mtsp=E.MTSPEnv, svrp=E.SVRPEnv, spctsp=E.SPCTSPEnv)[name]
+    gp = dict(gp)
+    for k in [k for k in gp if k.endswith("_sampler") and isinstance(gp[k], (list, tuple))]:
+        # a ready-made sampler object handed to the generator (documented '<name>_sampler' keyword): JSON-able spec (low, high)
+        from torch.distributions import Uniform
 
+        gp[k] = Uniform(low=float(gp[k][0]), high=float(gp[k][1]))
     env = cls(generator_params=dict(num_loc=n, **gp), check_solution=False)
     return env, None
 
